@@ -99,9 +99,11 @@ var propRules = map[string]*PropSpec{
 		Technique:  "static analysis: CFG reachability after the stop edge (go/ssa), AST type-switch exhaustiveness, ownership summaries",
 	},
 	"C05": {
-		Rules:       []string{"B1", "B2", "B5", "L2", "L5", "A4", "F8.bitmap", "A8", "G1", "F8.scratch", "F2.repair", "R1", "U3", "PT2", "L1", "B7", "B8", "F13.32", "RES1", "F8.point", "U1", "T1"},
+		Rules:       []string{"B1", "B2", "B5", "L2", "L5", "A4", "F8.bitmap", "A8", "G1", "F8.scratch", "F2.repair", "R1", "U3", "PT2", "L1", "B7", "B8", "F13.32", "RES1", "F8.point", "U1", "T1", "L9", "ZERO1"},
 		Explanation: explBase + " C05: error propagation on every encode/decode path, byte accounting of writers and readers, bounded reads, agreement of size prediction / writer / reader on the offset-header predicate and payload sizes, and flagging of zero-copy payloads.",
 		Decided: []string{
+			"the run flags of the portable header are OR-ed into a buffer that was allocated zeroed in the same call (or cleared first), never into one kept from a previous write",
+			"the portable reader reads a non-run chunk as bitmap words exactly when it announces more than 4096 values (evaluated at 4096 and 4097, where both payloads have the same length and an off-by-one stays in step with the stream)",
 			"decoding into a previously used bitmap re-slices each of the receiver's three tables only behind a capacity test on that same table",
 			"no decoder wraps the caller's stream in a read-ahead buffer (a reader consumes exactly its own bytes)",
 			"pooled readers are not touched after they went back to the pool, and only values of the pool's own type are put back",
@@ -121,9 +123,11 @@ var propRules = map[string]*PropSpec{
 		Technique:  techErr + "; affine size expressions over go/ssa",
 	},
 	"C06": {
-		Rules:       []string{"L1", "L2", "L5", "L6", "B5", "B1", "U3", "PT2", "A8", "R1", "B7", "L8", "T1", "U1", "F8.point"},
+		Rules:       []string{"L1", "L2", "L5", "L6", "B5", "B1", "U3", "PT2", "A8", "R1", "B7", "L8", "T1", "U1", "F8.point", "L9", "ZERO1"},
 		Explanation: explBase + " C06: format constants, header predicate, payload sizes and byte order are compared with the published RoaringFormatSpec values transcribed in the model.",
 		Decided: []string{
+			"the run flags of the portable header are OR-ed into a buffer that was allocated zeroed in the same call (or cleared first), never into one kept from a previous write",
+			"the portable reader reads a non-run chunk as bitmap words exactly when it announces more than 4096 values (evaluated at 4096 and 4097, where both payloads have the same length and an off-by-one stays in step with the stream)",
 			"ToBytes/MarshalBinary results are not backed by pooled memory",
 			"no decoder drops one of its parameters (a pre-read cookie header is forwarded)",
 			"a run list taken from the input is looked at (merged or rejected) before it is adopted — a known finding on this tree: it is adopted verbatim",
@@ -158,9 +162,10 @@ var propRules = map[string]*PropSpec{
 		Technique:  "static analysis: taint propagation of caller-owned slices over go/ssa + ownership typestate",
 	},
 	"C09": {
-		Rules:       []string{"F3.32", "F8.bitmap", "F8.run", "F2", "V1", "V2", "A6.kernel", "A2.32", "A3.32", "F8.scratch", "A2.64", "A3.64", "F3.64", "L2", "L5", "F2.repair", "R1", "B5", "F13.32", "A9", "RES1", "U1", "V3", "F8.point", "LEN1", "R3", "U10"},
+		Rules:       []string{"F3.32", "F8.bitmap", "F8.run", "F2", "V1", "V2", "A6.kernel", "A2.32", "A3.32", "F8.scratch", "A2.64", "A3.64", "F3.64", "L2", "L5", "F2.repair", "R1", "B5", "F13.32", "A9", "RES1", "U1", "V3", "F8.point", "LEN1", "R3", "U10", "L9"},
 		Explanation: explBase + " C09: the producer side of each Validate conjunct that has a structural form (no empty chunk stored, array/bitmap threshold, runs minimised, lazy cardinality repaired) and the validator's own conjunct table.",
 		Decided: []string{
+			"the portable reader reads a non-run chunk as bitmap words exactly when it announces more than 4096 values (evaluated at 4096 and 4097, where both payloads have the same length and an off-by-one stays in step with the stream)",
 			"no 16-bit sum or difference is compared as it is (it wraps at 65535 / 0); start+length of one interval and two triaged key±1 comparisons between strictly ordered keys are the only sites",
 			"roaring64 buckets obey the same ownership and no-empty-bucket rules",
 			"writer, reader and size predictor agree on header and payload sizes (a written bitmap can be read back)",
@@ -278,9 +283,11 @@ var propRules = map[string]*PropSpec{
 		Technique:  techOwn,
 	},
 	"C18": {
-		Rules:       []string{"B1", "B2", "B5", "T1", "L1", "V1", "F3.64", "A8", "G1", "R1", "U3", "PT2", "B7", "B8", "F5.neg", "L2", "A2.64", "A3.64", "F8.point", "F8.bitmap", "F8.run"},
+		Rules:       []string{"B1", "B2", "B5", "T1", "L1", "V1", "F3.64", "A8", "G1", "R1", "U3", "PT2", "B7", "B8", "F5.neg", "L2", "A2.64", "A3.64", "F8.point", "F8.bitmap", "F8.run", "L9", "ZERO1"},
 		Explanation: explBase + " C18: error propagation and byte accounting of the 64-bit writers/readers, bounded reads, the bound on the bucket count before allocation, agreement of writer/readers/size predictor on the framing, validator wiring, no empty bucket stored.",
 		Decided: []string{
+			"the run flags of the portable header are OR-ed into a buffer that was allocated zeroed in the same call (or cleared first), never into one kept from a previous write",
+			"the portable reader reads a non-run chunk as bitmap words exactly when it announces more than 4096 values (evaluated at 4096 and 4097, where both payloads have the same length and an off-by-one stays in step with the stream)",
 			"the 32-bit kernels that build a bucket's containers keep the kind the writer accepts (array up to 4096 values, bitmap above, minimised runs): point updates of a bucket go through the kind-preserving kernels, and a bitmap container is handed out only behind a cardinality test — otherwise WriteTo of a library-made 64-bit bitmap refuses the container half-way through the stream",
 			"every decoder resets or reassigns all three table arrays of the receiver on every successful path (decoding into a used bitmap keeps nothing)",
 			"roaring64 UnmarshalBinary/ReadFrom keep no pointer into the caller's slice",
